@@ -1,13 +1,149 @@
-(** C09 — upset/downset traversals.  STATUS: [_partial].  Proved: the empty collection
-    yields nothing.  The heap merge is decided by the correspondence in this revision. *)
-From Coq Require Import ZArith List Bool.
-From Concepts Require Import Base.Res Base.PyInt Base.BitSet Spec.FCA Spec.Context
+(** C09 — upset / downset traversals.
+
+    "c.upset() yields exactly the concepts >= c (including c) in increasing index order and
+    c.downset() exactly the concepts <= c in increasing dindex order, each once.
+    lattice.upset_union / downset_union yield exactly the union of the upsets / downsets, each
+    member once in the same rank orders (repeats and comparable members allowed); the empty
+    collection yields nothing."
+
+    END-TO-END: [L] is the value returned by the model of [Context.lattice] ([build_lattice],
+    satisfiable by [C03_terminates]).  Concepts are positions in the lattice; the index of the
+    member at position j is j (C06_index_is_position), so "increasing index order" is
+    [StronglySorted lt]; [nth_extent (l_exts L) j] is the extent of the j-th member and
+    [get_concept L j] that member.  The traversal is the heap merge [iterunion]; its loop needs
+    fuel: one step per seed plus one per neighbour link ([edges_up L] / [edges_down L] = total
+    number of upper / lower neighbour links) is enough.  The generic correctness of [iterunion]
+    (not about a lattice) is [C09_iterunion_correct] / [C09_iterunion_terminates]. *)
+From Coq Require Import ZArith List Bool Sorted.
+From Concepts Require Import Base.Res Base.PyInt Base.BitSet Spec.FCA Spec.Context Spec.LatticeSpec
   Model.Matrices Model.ContextApi Model.Members Model.Lattice Model.LatticeApi
-  Proofs.Matrices Proofs.ContextApi Proofs.Closure Proofs.LatticeBasics Proofs.LatticeFirst.
+  Proofs.Matrices Proofs.ContextApi Proofs.Closure Proofs.LatticeBasics Proofs.LatticeFirst
+  Proofs.BuildLattice Proofs.IterUnion Proofs.Assemble.
 Import ListNotations.
 Open Scope Z_scope.
+
+(** * c.upset() *)
+
+Theorem C09_upset : forall fuel dfuel c L ufuel i x,
+  wf_ctx c -> (Nat.max (nG c) (nM c) <= dfuel)%nat -> build_lattice fuel dfuel (relation_new c) = Ok L ->
+  concept_at L i x -> (1 + edges_up L <= ufuel)%nat ->
+  upset ufuel L i =
+  Ok (filter (fun j => subsetb (c_extent x) (nth_extent (l_exts L) j)) (seq 0 (length (l_concepts L)))).
+Proof.
+  intros fuel dfuel c L ufuel i x Hwf Hd HB.
+  exact (upset_spec c L (build_lattice_ok fuel dfuel c L Hwf Hd HB) ufuel i x).
+Qed.
+
+(** the same, read as: exactly the members above, each once, by increasing index *)
+Theorem C09_upset_meaning : forall fuel dfuel c L ufuel i x,
+  wf_ctx c -> (Nat.max (nG c) (nM c) <= dfuel)%nat -> build_lattice fuel dfuel (relation_new c) = Ok L ->
+  concept_at L i x -> (1 + edges_up L <= ufuel)%nat ->
+  exists out, upset ufuel L i = Ok out /\ StronglySorted lt out /\ NoDup out /\
+    forall j, In j out <->
+      (j < length (l_concepts L))%nat /\ subset (c_extent x) (nth_extent (l_exts L) j).
+Proof.
+  intros fuel dfuel c L ufuel i x Hwf Hd HB.
+  exact (upset_meaning c L (build_lattice_ok fuel dfuel c L Hwf Hd HB) ufuel i x).
+Qed.
+
+(** * c.downset() *)
+
+Theorem C09_downset : forall fuel dfuel c L ufuel i x,
+  wf_ctx c -> (Nat.max (nG c) (nM c) <= dfuel)%nat -> build_lattice fuel dfuel (relation_new c) = Ok L ->
+  concept_at L i x -> (1 + edges_down L <= ufuel)%nat ->
+  exists out, downset ufuel L i = Ok out /\
+    StronglySorted (fun a b => (c_dindex (get_concept L a) < c_dindex (get_concept L b))%nat) out /\
+    NoDup out /\
+    forall j, In j out <->
+      (j < length (l_concepts L))%nat /\ subset (nth_extent (l_exts L) j) (c_extent x).
+Proof.
+  intros fuel dfuel c L ufuel i x Hwf Hd HB.
+  exact (downset_spec c L (build_lattice_ok fuel dfuel c L Hwf Hd HB) ufuel i x).
+Qed.
+
+(** * lattice.upset_union(concepts) — any list of members: repeats and comparable ones allowed *)
+
+Theorem C09_upset_union : forall fuel dfuel c L ufuel cs,
+  wf_ctx c -> (Nat.max (nG c) (nM c) <= dfuel)%nat -> build_lattice fuel dfuel (relation_new c) = Ok L ->
+  (forall i, In i cs -> (i < length (l_concepts L))%nat) -> (length cs + edges_up L <= ufuel)%nat ->
+  upset_union ufuel L cs =
+  Ok (filter (fun j => existsb (fun i => subsetb (nth_extent (l_exts L) i) (nth_extent (l_exts L) j)) cs)
+             (seq 0 (length (l_concepts L)))).
+Proof.
+  intros fuel dfuel c L ufuel cs Hwf Hd HB Hcs.
+  exact (upset_union_spec c L (build_lattice_ok fuel dfuel c L Hwf Hd HB) cs Hcs ufuel).
+Qed.
+
+Theorem C09_upset_union_meaning : forall fuel dfuel c L ufuel cs,
+  wf_ctx c -> (Nat.max (nG c) (nM c) <= dfuel)%nat -> build_lattice fuel dfuel (relation_new c) = Ok L ->
+  (forall i, In i cs -> (i < length (l_concepts L))%nat) -> (length cs + edges_up L <= ufuel)%nat ->
+  exists out, upset_union ufuel L cs = Ok out /\ StronglySorted lt out /\
+    forall j, In j out <->
+      (j < length (l_concepts L))%nat /\
+      exists i, In i cs /\ subset (nth_extent (l_exts L) i) (nth_extent (l_exts L) j).
+Proof.
+  intros fuel dfuel c L ufuel cs Hwf Hd HB Hcs.
+  exact (upset_union_general c L (build_lattice_ok fuel dfuel c L Hwf Hd HB) cs Hcs ufuel).
+Qed.
+
+(** * lattice.downset_union(concepts) *)
+
+Theorem C09_downset_union : forall fuel dfuel c L ufuel cs,
+  wf_ctx c -> (Nat.max (nG c) (nM c) <= dfuel)%nat -> build_lattice fuel dfuel (relation_new c) = Ok L ->
+  (forall i, In i cs -> (i < length (l_concepts L))%nat) -> (length cs + edges_down L <= ufuel)%nat ->
+  exists out, downset_union ufuel L cs = Ok out /\
+    StronglySorted (fun a b => (c_dindex (get_concept L a) < c_dindex (get_concept L b))%nat) out /\
+    NoDup out /\
+    forall j, In j out <->
+      (j < length (l_concepts L))%nat /\
+      exists i, In i cs /\ subset (nth_extent (l_exts L) j) (nth_extent (l_exts L) i).
+Proof.
+  intros fuel dfuel c L ufuel cs Hwf Hd HB Hcs.
+  exact (downset_union_spec c L (build_lattice_ok fuel dfuel c L Hwf Hd HB) cs Hcs ufuel).
+Qed.
+
+(** * the empty collection yields nothing (any fuel, any lattice) *)
 
 Theorem C09_empty_upset_union : forall fuel L, upset_union fuel L [] = Ok [].
 Proof. exact upset_union_nil. Qed.
 Theorem C09_empty_downset_union : forall fuel L, downset_union fuel L [] = Ok [].
 Proof. exact downset_union_nil. Qed.
+Theorem C09_iterunion_nil : forall fuel sortkey next, iterunion fuel [] sortkey next = Ok [].
+Proof. exact iterunion_nil. Qed.
+
+(** * the generic heap merge: on any finite graph [nodes] / [next] whose edges strictly increase
+      an injective non-negative rank, it yields exactly the nodes reachable from the seeds, by
+      increasing rank (hence each once), and terminates within [iterunion_fuel] steps *)
+
+Theorem C09_iterunion_correct : forall (sortkey : nat -> Z) (next : nat -> list nat) (nodes seeds : list nat),
+  (forall c, In c nodes -> 0 <= sortkey c) ->
+  (forall c d, In c nodes -> In d nodes -> sortkey c = sortkey d -> c = d) ->
+  (forall c d, In c nodes -> In d (next c) -> In d nodes /\ sortkey c < sortkey d) ->
+  (forall c, In c seeds -> In c nodes) ->
+  forall fuel out, iterunion fuel seeds sortkey next = Ok out ->
+    StronglySorted (fun a b => sortkey a < sortkey b) out /\
+    forall c, In c out <-> reach next seeds c.
+Proof. exact iterunion_correct. Qed.
+
+Theorem C09_iterunion_terminates : forall (sortkey : nat -> Z) (next : nat -> list nat) (nodes seeds : list nat),
+  (forall c, In c nodes -> 0 <= sortkey c) ->
+  (forall c d, In c nodes -> In d nodes -> sortkey c = sortkey d -> c = d) ->
+  (forall c d, In c nodes -> In d (next c) -> In d nodes /\ sortkey c < sortkey d) ->
+  (forall c, In c seeds -> In c nodes) ->
+  forall fuel, (iterunion_fuel next nodes seeds <= fuel)%nat ->
+    exists out, iterunion fuel seeds sortkey next = Ok out.
+Proof. exact iterunion_terminates. Qed.
+
+(** * witness: rows {0,1}, {1,2}, {2,3}, {0,1,2}: 10 links; member 5 has dindex 1, 3 -> 3, 4 -> 4,
+      1 -> 5, 2 -> 6, 0 -> 7 *)
+Example C09_witness :
+  let c := mkCtx 4 4 [3; 6; 12; 7] in
+  wf_ctx c /\ (Nat.max (nG c) (nM c) <= 4)%nat /\
+  exists L, build_lattice 20 4 (relation_new c) = Ok L /\
+    (edges_up L, edges_down L, upset 20 L 1, downset 20 L 5,
+     upset_union 20 L [1; 2; 1; 4], downset_union 20 L [4; 5; 4; 1])%nat
+    = (10, 10, Ok [1; 6; 7], Ok [5; 3; 4; 2; 0], Ok [1; 2; 3; 4; 5; 6; 7], Ok [5; 3; 4; 1; 2; 0])%nat.
+Proof.
+  cbv zeta. split; [apply wf_ctxb_sound; vm_compute; reflexivity|]. split; [apply le_by_leb; vm_compute; reflexivity|].
+  apply witness_intro. vm_compute. reflexivity.
+Qed.
